@@ -85,6 +85,12 @@ CHECKS = {
         text="Random histories of 3..30 steps (operations, clock advances from 1 s to 3 days, agent reboots) per security level; every operation must succeed with the database truth, the first datagram must be a well-formed discovery probe, the discovered engine id must be used, bad discovery replies refused, and the agent's notInTimeWindow verdicts never exceed the number of reboots. 'Eventually' is restated as bounded progress over generated histories.",
         ref="DESIGN.md 4/C12",
     ),
+    "C14": dict(
+        cat="exploration",
+        technique="runtime monitoring: controlled scheduler at the sender seam (requests parked, answered in enumerated/sampled orders), results compared with solo runs",
+        text="Sets of 2..6 concurrent operations on a shared client (v2c, v3 authPriv primed and fresh) or two v3 clients; every request is parked and the answer order is enumerated depth-first by re-execution (complete for small sets, sampled beyond), which covers exactly the interleavings a cooperative asyncio program can have; the client clock advances on every read so request ids differ. Each result must equal the solo result; agent counters, user names and event-loop hygiene are monitored.",
+        ref="DESIGN.md 4/C14",
+    ),
     "C15": dict(
         cat="exploration",
         technique="runtime monitoring: recursive exact-type walk over PyWrapper results + equality with pythonised raw results",
@@ -96,6 +102,12 @@ CHECKS = {
         technique="runtime monitoring: dense sweep of public constructors/converters with record-only contracts and an independent codec",
         text="Exhaustive TimeTicks<->timedelta round trip over a dense prefix (2*10^6 quick, 2^26 thorough) plus boundaries and samples to 2^32-1; Counter/Counter64 over integers far outside the range; unsigned decoding from 1..9-octet contents; IpAddress; encode/decode through x690 and the independent codec.",
         ref="DESIGN.md 4/C17",
+    ),
+    "C18": dict(
+        cat="exploration",
+        technique="runtime monitoring: seam monitor of sender arguments and datagram headers against a reference stack-of-configurations model over nested histories",
+        text="Random properly nested histories (depth <= 4) of configure / reconfigure enter / exit (normal, exceptional) / request / unknown setting over timeout, retries, credentials (three families, six identities) and context; every sender call and datagram must match the model's current configuration and client.config must equal the restored snapshot after each exit.",
+        ref="DESIGN.md 4/C18",
     ),
     "C16": dict(
         cat="exploration",
